@@ -43,4 +43,12 @@ DeleteOK == [][\A o \in Objs : Delete(o) =>
                  ELSE UNCHANGED <<root, height, size, bag>>]_vars
 NearestOK == bad \/ size = 0 \/ \A p \in NNPts : NNOK(NearestNeighbor(root, p), p, bag, Boxes)
 KNearestOK == bad \/ \A p \in NNPts, k \in Ks : KNNOK(NearestNeighbors(root, k, p), k, p, bag, Boxes)
+(* ------------------------------------------------------------------ reachability witnesses (vacuity self-tests) *)
+(* Each of these is expected to be VIOLATED by TLC: the bounded model does reach three levels, does collapse its root,
+   does drain completely and refill.  (`-coverage` cannot be used on this module: it exhausts the heap before the first
+   state.)  *)
+FillSpec == Init /\ [][\E o \in Objs : Insert(o)]_vars          \* insert-only walks, used with -simulate on the large pool
+NeverThreeLevels == height < 3
+NeverCollapses == [][height' >= height]_vars
+NeverRefilled == [][~(size = 0 /\ nops > 0 /\ size' = 1)]_vars
 =============================================================================
